@@ -79,7 +79,9 @@ var gIfaceTables = []string{
 
 func gRandIfaces(r *vRand, allowDup bool) string {
 	n := 1 + r.intn(4)
-	pool := []string{"g4.1", "g4.2", "g4.3", "g6.1", "g6.2", "k6.1", "k6.2", "s6.1", "c6.1", "k4.1", "l4.1", "l6.1", "u6.0", "g4.4", "g6.3"}
+	// indices 1..4 of a class are four different sub-ranges of it (see gIP)
+	pool := []string{"g4.1", "g4.2", "g4.3", "g6.1", "g6.2", "k6.1", "k6.2", "s6.1", "c6.1", "k4.1", "l4.1", "l6.1", "u6.0", "g4.4", "g6.3",
+		"g6.4", "k6.3", "k6.4", "s6.2", "s6.3", "s6.4", "c6.2", "c6.3", "c6.4", "k4.2", "k4.3"}
 	used := map[string]bool{}
 	var parts []string
 	for i := 0; i < n; i++ {
@@ -241,7 +243,7 @@ func gRandCfg(r *vRand) gGenCfg {
 	}
 	c.lo = r.chance(1, 3)
 	c.md = r.chance(1, 4)
-	muxPool := []string{"g4.1", "g6.1", "l4.1", "k6.1", "g4.7", "k4.1", "s6.1", "c6.1", "l6.1"}
+	muxPool := []string{"g4.1", "g6.1", "l4.1", "k6.1", "g4.7", "k4.1", "s6.1", "c6.1", "l6.1", "s6.2", "s6.3", "s6.4", "c6.2", "c6.3", "k6.3", "g6.2"}
 	if r.chance(1, 4) {
 		c.um = pick(muxPool, 1+r.intn(3))
 		c.hold = r.chance(1, 3) && strings.Contains(c.ct, "h")
@@ -302,7 +304,7 @@ func gRandCfg(r *vRand) gGenCfg {
 // position (the socket selected for it must be closed, the others become candidates); likewise site-local and
 // IPv4-compatible IPv6 externals, which must not be published either.
 func gPinnedRule(r *vRand) string {
-	pool := []string{"x4.80", "x4.81", "x6.80", "k6.1", "k6.2", "x4.82", "s6.1", "c6.1", "s6.2", "c6.2"}
+	pool := []string{"x4.80", "x4.81", "x6.80", "k6.1", "k6.2", "x4.82", "s6.1", "c6.1", "s6.2", "c6.2", "s6.3", "s6.4", "c6.3", "c6.4", "k6.3"}
 	n := 1 + r.intn(3)
 	var exts []string
 	used := map[string]bool{}
@@ -314,7 +316,7 @@ func gPinnedRule(r *vRand) string {
 		}
 	}
 	if r.chance(1, 2) { // make sure a filtered address is there, at a random position
-		exts[r.intn(len(exts))] = []string{"k6.1", "s6.1", "c6.1"}[r.intn(3)]
+		exts[r.intn(len(exts))] = []string{"k6.1", "s6.1", "c6.1", "s6.2", "s6.3", "s6.4", "c6.2", "c6.3", "k6.3"}[r.intn(9)]
 		seen := map[string]bool{}
 		var out []string
 		for _, e := range exts {
@@ -495,6 +497,21 @@ func gGen(o *vOut, r *vRand, thorough bool, args []string, emit func(op string) 
 				emit("gather close")
 				emit("gather end")
 			}
+		}
+	}
+	// 1d. every sub-range of the special-purpose classes (site-local fec0::/10, link-local fe80::/10, ::/96,
+	// unique local, private / public IPv4, 127/8, 169.254/16) as interface address and as UDP mux listen address
+	for _, md := range []bool{false, true} {
+		c := gGenCfg{ct: "h", nt: "", lo: true, md: md, tm: "any",
+			ifaces: "0:u:s6.1+s6.2+s6.3+s6.4+g6.1+g6.2+g6.3+g6.4/1:u:k6.1+k6.2+k6.3+k6.4+c6.1+c6.2+c6.3+c6.4/2:ul:l4.1+l4.2+l4.3+l4.4/3:u:g4.1+g4.2+g4.3+g4.4+k4.1+k4.2+k4.3+k4.4"}
+		emit("gather new " + c.String() + " " + c.ifaces)
+		emit("gather gather")
+		emit("gather end")
+		for _, um := range []string{"s6.1+s6.2+s6.3", "s6.4+c6.1+c6.2", "c6.3+c6.4+k6.2", "k6.3+k6.4+g6.2", "g6.3+g6.4+g4.2", "l4.2+k4.3+g4.3"} {
+			c := gGenCfg{ct: "h", nt: "", md: md, um: um, ifaces: gIfaceTables[0]}
+			emit("gather new " + c.String() + " " + c.ifaces)
+			emit("gather gather")
+			emit("gather end")
 		}
 	}
 	// 2. port ranges: single port, exhausted, two ports with one busy, duplicates of one address
